@@ -92,6 +92,11 @@ fn parse_cycle(mut arguments: TagTokenIter<'_>, _options: &Language) -> Result<C
         }
     }
 
+    if values.is_empty() {
+        // `{% cycle name: %}`
+        return Err(arguments.raise_error("Value expected."));
+    }
+
     if name.is_empty() {
         name = itertools::join(values.iter(), "-");
     }
